@@ -515,7 +515,7 @@ func Scratch(prefix string) (string, func()) {
 	}
 	d, err := os.MkdirTemp(base, "verif-"+prefix+"-")
 	if err != nil {
-		panic(err)
+		panic(Infra{Msg: "harness file operation failed: " + err.Error()})
 	}
 	return d, func() { _ = os.RemoveAll(d) }
 }
